@@ -185,6 +185,16 @@ def check(ctx):
              "module m; reg x1, z0; initial x1 = 1'b x | z0; endmodule\n", "module m; wire ns; assign #1.0ns ns = 0; endmodule\n"]
     extra += ["module m; initial begin x = a.b().c().d(); y = q.f(1).g(2).h(3).k; z = this.q.a().b().c().d().e(); end endmodule\n",
               "module m; initial r = obj.m1().m2(p.q().r()).m3; endmodule\n"]
+    # operator assignments (A.6.2 / A.6.4): each of the thirteen assignment operators and the nonblocking one, with what may
+    # follow it directly -- a unary operator, an increment, a parenthesis, a concatenation, a comment -- in a statement, a
+    # for step and an expression in parentheses
+    for op in ["=", "+=", "-=", "*=", "/=", "%=", "&=", "|=", "^=", "<<=", ">>=", "<<<=", ">>>=", "<="]:
+        for rhs in ["-b", "+b", "~b", "!b", "&b", "|b", "^b", "(b)", "{b}", "/* c */b", "//c\nb", " b"] + (["++i", "--i"] if op == "=" else []):
+            if svgen.fuses(op, rhs.lstrip()[:1]) and not rhs.startswith(("/", " ")):
+                continue
+            extra.append("module m; int a, b, i; always_comb begin i = 1; a%s%s; end endmodule\n" % (op, rhs))
+            if op not in ("<=",):
+                extra.append("module m; int a, b, i; initial for (i = 0; i < 4; a%s%s) b = 1; endmodule\n" % (op, rhs))
     xc = [Case("x%d" % i).add("want", "tree", "text").add("run", "parse_sv_str", hx(t), hx("t.sv")) for i, t in enumerate(extra)]
     ximpl = run_harness("api", xc, "c02x", timeout=600)
     badx = None
